@@ -83,11 +83,13 @@ pub struct Corpus {
     pub dict_env: Vec<String>,
     /// string literals that look like command-line flags
     pub dict_argv: Vec<String>,
+    /// prefix-like literals ("O2O_"): combined with the upper-cased type names of a world's inputs
+    pub dict_env_prefixes: Vec<String>,
 }
 
 /// A dictionary in the fuzzing sense, taken from the working tree under test: whatever the
 /// expander compares its surroundings against is written somewhere in its sources.
-fn source_dictionary(repo: &Path) -> (Vec<String>, Vec<String>) {
+fn source_dictionary(repo: &Path) -> (Vec<String>, Vec<String>, Vec<String>) {
     let mut lits: Vec<String> = Vec::new();
     fn walk(ts: TokenStream, out: &mut Vec<String>) {
         for t in ts {
@@ -141,7 +143,9 @@ fn source_dictionary(repo: &Path) -> (Vec<String>, Vec<String>) {
     env.truncate(64);
     let mut argv: Vec<String> = lits.iter().filter(|s| s.starts_with("--") && s.len() > 3 && !s.contains(' ')).cloned().collect();
     argv.truncate(32);
-    (env, argv)
+    let mut pre: Vec<String> = prefixes.iter().map(|s| (*s).clone()).collect();
+    pre.truncate(8);
+    (env, argv, pre)
 }
 
 pub fn load(repo: &Path) -> Corpus {
@@ -211,6 +215,6 @@ pub fn load(repo: &Path) -> Corpus {
             }
         }
     }
-    let (dict_env, dict_argv) = source_dictionary(repo);
-    Corpus { items, files, from_tests_dir, from_unit_tests, from_docs, dict_env, dict_argv }
+    let (dict_env, dict_argv, dict_env_prefixes) = source_dictionary(repo);
+    Corpus { items, files, from_tests_dir, from_unit_tests, from_docs, dict_env, dict_argv, dict_env_prefixes }
 }
